@@ -1,7 +1,15 @@
 import OH.Props.C05
+import OH.Props.TablesC05
 #print axioms OH.Props.C05.C05_grammar_repetitions_progress
 #print axioms OH.Props.C05.C05_engine_consumes_prefix
 #print axioms OH.Props.C05.C05_lookahead_matches_same_text
 #print axioms OH.Props.C05.C05_number_denotes
 #print axioms OH.Props.C05.C05_hour_minutes_denotes
 #print axioms OH.Props.C05.C05_day_offset_denotes
+#print axioms OH.Props.TablesC05.C05_separator_arms
+#print axioms OH.Props.TablesC05.C05_modifier_arms
+#print axioms OH.Props.TablesC05.C05_event_arms
+#print axioms OH.Props.TablesC05.C05_wday_arms
+#print axioms OH.Props.TablesC05.C05_month_arms
+#print axioms OH.Props.TablesC05.C05_holiday_arms
+#print axioms OH.Props.TablesC05.C05_sign_arms
